@@ -362,6 +362,10 @@ class _LocalDatePatternParser(_IPatternParser[LocalDate]):
 
             if not used_fields.has_any(_PatternFields.ERA):
                 self.__era = self._template_value.era
+                # The calendar may have been parsed: fall back to its own (latest) era if it lacks the template's.
+                calendar_eras = list(self._calendar.eras())
+                if self.__era not in calendar_eras:
+                    self.__era = calendar_eras[-1]
 
             assert self.__era is not None
 
